@@ -6,6 +6,8 @@
   Hand-written expectations; where the model has a named constant the theorem ties the two names directly.
 -/
 import PgVerif.Generated.Src
+import PgVerif.Model.Wal
+import PgVerif.Spec.Wal
 namespace PgVerif.Proofs.SrcTie.Wal
 open PgVerif.Generated
 theorem wal_WAL_MAGIC_16 : Src.wal.WAL_MAGIC_16 = 0xd113 := by decide
@@ -17,6 +19,11 @@ theorem wal_WALPageSize : Src.wal.WALPageSize = 0x2000 := by decide
 theorem wal_XLogRecordSize : Src.wal.XLogRecordSize = 24 := by decide
 theorem wal_ShortHeaderSize : Src.wal.ShortHeaderSize = 24 := by decide
 theorem wal_LongHeaderSize : Src.wal.LongHeaderSize = 40 := by decide
+/-- fixes/wal/11: the bound parseXLogRecord puts on xl_tot_len is PostgreSQL's XLogRecordMaxSize (xlogrecord.h:
+1020 MiB) — the constant of the source, the constant of the model and the bound of `Spec.Wal.WalRecord.WF` are one number -/
+theorem wal_XLogRecordMaxSize : Src.wal.XLogRecordMaxSize = 1069547520 := by decide
+theorem wal_XLogRecordMaxSize_model : Src.wal.XLogRecordMaxSize = (Model.Wal.xlogRecordMaxSize : Int) ∧
+    Src.wal.XLogRecordMaxSize = (Spec.Wal.xlogRecordMaxSize : Int) := by decide
 theorem wal_XLP_FIRST_IS_CONTRECORD : Src.wal.XLP_FIRST_IS_CONTRECORD = 1 := by decide
 theorem wal_XLP_LONG_HEADER : Src.wal.XLP_LONG_HEADER = 2 := by decide
 theorem wal_XLP_BKP_REMOVABLE : Src.wal.XLP_BKP_REMOVABLE = 4 := by decide
@@ -50,6 +57,9 @@ theorem wal_XLOG_HEAP_HOT_UPDATE : Src.wal.XLOG_HEAP_HOT_UPDATE = 64 := by decid
 theorem wal_XLOG_HEAP_CONFIRM : Src.wal.XLOG_HEAP_CONFIRM = 80 := by decide
 theorem wal_XLOG_HEAP_LOCK : Src.wal.XLOG_HEAP_LOCK = 96 := by decide
 theorem wal_XLOG_HEAP_INPLACE : Src.wal.XLOG_HEAP_INPLACE = 112 := by decide
+/-- fixes/wal/12: XLOG_HEAP_INIT_PAGE (heapam_xlog.h; also XLOG_BRIN_INIT_PAGE), the bit operationNameFor now keeps in the
+opcode of Heap, Heap2 and BRIN records -/
+theorem wal_XLOG_HEAP_INIT_PAGE : Src.wal.XLOG_HEAP_INIT_PAGE = 128 := by decide
 theorem wal_XLOG_XACT_COMMIT : Src.wal.XLOG_XACT_COMMIT = 0 := by decide
 theorem wal_XLOG_XACT_PREPARE : Src.wal.XLOG_XACT_PREPARE = 16 := by decide
 theorem wal_XLOG_XACT_ABORT : Src.wal.XLOG_XACT_ABORT = 32 := by decide
